@@ -41,28 +41,10 @@ COQ = os.path.join(VERIF, "coq")
 THEORIES = os.path.join(COQ, "theories")
 REPO = os.environ.get("DEEPDIFF_REPO", "/repo")
 GUARD = "SEPERMAN_DEEPDIFF_VERIF"
-def _ncpu():
-    """worker count for coqc shards / fork pools: all cores (<= 16) on an idle box; when the box is already overloaded
-    (several checks or builders at once) fewer workers finish sooner than 16 more competing ones.  VERIF_NCPU overrides."""
-    n = min(16, os.cpu_count() or 4)
-    if os.environ.get("VERIF_NCPU"):
-        return max(1, int(os.environ["VERIF_NCPU"]))
-    try:
-        load = os.getloadavg()[0]
-    except OSError:
-        return n
-    if load > 1.5 * n:
-        n = max(3, min(n, int(n * n / load)))
-    try:  # a coqc on a cases shard needs about 0.5-0.8 GB: do not start more than the free memory carries
-        for line in open("/proc/meminfo"):
-            if line.startswith("MemAvailable:"):
-                n = max(2, min(n, int(int(line.split()[1]) / 1048576 / 0.9)))
-    except (OSError, ValueError):
-        pass
-    return n
-
-
-NCPU = _ncpu()
+# worker count for coqc shards / fork pools.  It is a function of the machine only (never of the load): several
+# modules partition their generated cases by it, and a run must be a function of VERIF_SEED.  What protects an
+# overloaded box is the system-wide coqc slot pool in `sh` below.
+NCPU = max(1, int(os.environ["VERIF_NCPU"])) if os.environ.get("VERIF_NCPU") else min(16, os.cpu_count() or 4)
 
 KERNEL_TRUST = [
     "Coq 8.16.1 kernel (coqc, full .vo build; no native_compute; vm_compute used only for kernel-checked conversions in _refuted witnesses / finite lemmas and for evaluating the model in generated cases files)",
@@ -79,7 +61,53 @@ def _clean_env():
     return env
 
 
+class _CoqcSlot:
+    """System-wide bound on concurrently running coqc processes (each needs 0.5-0.8 GB on a cases shard): one of
+    N lock files under the temp directory is held (flock) for the life of the process.  With several checks running
+    at once on one box - the builders' agents, a validation pass next to a development run - the sum of their worker
+    pools used to exhaust the memory and the OOM killer produced spurious 'coqc failed' shards.  Waiting for a slot
+    does not count against the coqc timeout.  If the lock directory cannot be used the call proceeds unbounded."""
+    N = min(16, os.cpu_count() or 4)
+
+    def __enter__(self):
+        self.f = None
+        try:
+            import fcntl
+            d = os.path.join(tempfile.gettempdir(), "verif_coqc_slots")
+            os.makedirs(d, exist_ok=True)
+            start = (os.getpid() + int(time.time() * 1000)) % self.N  # not the global PRNG: runs are functions of VERIF_SEED
+            t0 = time.time()
+            while time.time() - t0 < 3600:
+                for k in range(self.N):
+                    f = open(os.path.join(d, "slot_%d" % ((start + k) % self.N)), "a")
+                    try:
+                        fcntl.flock(f, fcntl.LOCK_EX | fcntl.LOCK_NB)
+                        self.f = f
+                        return self
+                    except OSError:
+                        f.close()
+                time.sleep(0.25)
+        except Exception:
+            self.f = None
+        return self
+
+    def __exit__(self, *a):
+        if self.f is not None:
+            try:
+                self.f.close()
+            except Exception:
+                pass
+        return False
+
+
 def sh(cmd, timeout=600, cwd=None, env=None):
+    if isinstance(cmd, (list, tuple)) and cmd and os.path.basename(str(cmd[0])) == "coqc":
+        with _CoqcSlot():
+            return _sh(cmd, timeout, cwd, env)
+    return _sh(cmd, timeout, cwd, env)
+
+
+def _sh(cmd, timeout=600, cwd=None, env=None):
     p = subprocess.run(cmd, shell=isinstance(cmd, str), cwd=cwd, env=env or _clean_env(),
                        stdout=subprocess.PIPE, stderr=subprocess.STDOUT, timeout=timeout)
     out = p.stdout.decode("utf-8", "replace")
@@ -321,7 +349,7 @@ class Ctx:
             return sh(["coqc", "-Q", THEORIES, "DD", fn], timeout=timeout, cwd=self.scratch)
 
         bad = []
-        with ThreadPoolExecutor(max_workers=min(NCPU, _ncpu())) as ex:
+        with ThreadPoolExecutor(max_workers=NCPU) as ex:
             results = list(ex.map(one, files))
         # a coqc that was killed (out-of-memory killer / a signal on an overloaded box) says nothing about the model:
         # such shards - non-zero exit without any Coq "Error" in the output - are re-run once, one at a time
